@@ -189,6 +189,15 @@ def edge_specs(rng, tier):
             out.append({'kind': 'series', 'what': what, 'off': off, 'L': L, 'cb': what in ('eta', 'ets') and off == L, 'zs': False, 'si': si,
                         'unit': unit, 'nch': 0, 'N': N, 'evch': 0, 'ev': ev, 'data': bb.plant(ev, resp[0], L, off, N), 'resp': resp,
                         'planted': True, 'integer': True, 'evfloat': False, 'edge': 'first-last'})
+            if what != 'ets':
+                # ONE occurrence whose window is the whole recording (len_et + offset = N: the largest len_et that fits)
+                L1 = rng.choice([2, L, rng.randint(9, 32)])
+                N1 = L1 + off
+                r1 = [float(rng.randint(-9, 9) or 1) for _ in range(L1)]
+                e1 = [code] + [0] * (N1 - 1)
+                out.append({'kind': 'series', 'what': what, 'off': off, 'L': L1, 'cb': False, 'zs': False, 'si': si, 'unit': unit, 'nch': 0, 'N': N1,
+                            'evch': 0, 'ev': e1, 'data': bb.plant(e1, {str(code): r1}, L1, off, N1), 'resp': [{str(code): r1}], 'planted': True,
+                            'integer': True, 'evfloat': False, 'edge': 'whole-recording'})
     for what in ('eta', 'ets'):
         L = rng.randint(2, 6)
         for off in (-L, -1, 0, L):
@@ -636,6 +645,15 @@ def inplace_failures(sp, seed=0):
         T.data[...] = np.asarray(sp2['data'], dtype=float).reshape(T.data.shape).astype(T.data.dtype)
         if not np.array_equal(np.asarray(T.data, dtype=float).reshape(-1), np.asarray(sp2['data'])):
             return []      # the new values do not fit the recording's dtype
+        # ... and (event-coded series, positive codes) RELABELS the events in place, reversing the order of the codes:
+        # c -> 100 - c; a new analyzer must order its rows by the NEW codes
+        used = sorted({int(c) for c in sp.get('ev', []) if c != 0})
+        if sp['kind'] == 'series' and used and used[0] > 0 and not sp.get('codes_real') and sp.get('alias') not in ('same', 'samearray') \
+                and E.data.flags.writeable and E.data.dtype.kind in 'fi' and E.data.dtype.itemsize >= 2 and rng.random() < 0.6:
+            sp2 = dict(sp2)
+            sp2['ev'] = [(100 - int(c)) if c != 0 else 0 for c in sp['ev']]
+            sp2['resp'] = [{str(100 - int(k)): v for k, v in r.items()} for r in sp2['resp']]
+            E.data[...] = np.asarray(sp2['ev']).reshape(E.data.shape).astype(E.data.dtype)
         b, _, _ = bb.build(sp2, shared=(T, E))
         gb = reads(b, ws)
         for w, o, c in gb:
@@ -654,6 +672,20 @@ def inplace_failures(sp, seed=0):
                         add('alias/result-shares/%s/data' % w, 'the %s result shares memory with the %s argument' % (w, nm))
                     if getattr(arg, 'metadata', None) is not None and r.metadata is arg.metadata:
                         add('alias/result-shares/%s/metadata' % w, 'the %s result holds the %s argument\'s metadata dict itself' % (w, nm))
+        # the caller overwrites B's results; yet another analyzer on the same input objects still answers as a fresh one
+        s_in = full_snapshot(None, T, E)
+        for w, o, c in gb:
+            if o is not None:
+                bb.scribble_data(o)
+        ch = [k for k in diff(s_in, full_snapshot(None, T, E)) if not k.endswith('.attrs')]
+        if ch:
+            add('alias/result-shares/scribble', 'overwriting the results of an analyzer in place changed the input objects: %s' % ','.join(ch))
+        d_an, _, _ = bb.build(sp2, shared=(T, E))
+        for w, o, c in reads(d_an, ws):
+            fr = fresh_of(sp2, w)
+            if not bb.same_out(dict(sp2, what=w), w, c, fr):
+                add('alias/scribble/new-analyzer/%s/value' % w, 'after the caller overwrote the results of another analyzer, a NEW analyzer on the same input objects gives %s, '
+                    'a fresh one on fresh equal inputs %s' % (c[:100], fr[:100]))
         if first[1] is not None and bb.canon_read(w1, first[1]) != first[2]:
             add('alias/inplace/%s/earlier-result-changed' % w1, 'the %s result handed out before the caller changed the recording in place changed with it' % w1)
         for w, _, c in reads(a, [w for w in ws if w != w1]):
